@@ -1,3 +1,133 @@
-/- stub: model `Ffi` (to be written) -/
+import Lean
+/-!
+# Data model of the C binding's error tables (C18)
+
+The tables themselves are generated (`Iox2/Gen/FfiErrors.lean`, translator `/verif/extract/ffi_errors.py`);
+this file fixes their shape.
+
+`Name`: a source-level identifier or printable text.  It carries the string as written in the Rust source
+*and* its code points, with kernel-checked proofs that the two spell the same text.  Equality of names is
+decided on the code points (kernel-accelerated `Nat` comparisons with early exit).  The kernel's evaluation
+of `String` operations (UTF-8 encoding through `UInt8`/`BitVec` arithmetic) costs milliseconds per
+comparison, which does not scale to tables with ten thousands of comparisons; the `ok` field needs the kernel's
+own literal expansion `"ab" ≡ String.ofList [Char.ofNat 97, Char.ofNat 98]` once per literal only.
+`Name.eq_iff` shows that equality of names is the ordinary equality of the strings: nothing about the
+statements changes.
+-/
 namespace Iox2.Ffi
+
+/-- all code points below the surrogate range (covers every identifier and message of the sources;
+    the `n!` elaborator refuses other texts) -/
+def validKey (key : List Nat) : Bool := key.all (fun k => decide (k < 55296))
+
+structure Name where
+  str : String
+  key : List Nat
+  valid : validKey key = true
+  ok : str = String.ofList (key.map Char.ofNat)
+
+theorem toNat_ofNat_of_lt {k : Nat} (h : k < 55296) : (Char.ofNat k).toNat = k := by
+  have hv : k.isValidChar := Or.inl h
+  simp [Char.ofNat, hv, Char.toNat, Char.ofNatAux]
+
+theorem key_eq_of_map_eq : ∀ (a b : List Nat), validKey a = true → validKey b = true →
+    a.map Char.ofNat = b.map Char.ofNat → a = b
+  | [], [], _, _, _ => rfl
+  | [], _ :: _, _, _, h => by simp at h
+  | _ :: _, [], _, _, h => by simp at h
+  | x :: xs, y :: ys, ha, hb, h => by
+    simp only [validKey, List.all_cons, Bool.and_eq_true, decide_eq_true_eq] at ha hb
+    simp only [List.map_cons, List.cons.injEq] at h
+    have hxy : x = y := by
+      have := congrArg Char.toNat h.1
+      rwa [toNat_ofNat_of_lt ha.1, toNat_ofNat_of_lt hb.1] at this
+    have := key_eq_of_map_eq xs ys (by simpa [validKey] using ha.2) (by simpa [validKey] using hb.2) h.2
+    rw [hxy, this]
+
+theorem Name.eq_iff_key (a b : Name) : a = b ↔ a.key = b.key := by
+  constructor
+  · intro h; rw [h]
+  · intro h
+    cases a with
+    | mk sa ka va oka =>
+      cases b with
+      | mk sb kb vb okb =>
+        simp only at h
+        subst h
+        have hs : sa = sb := oka.trans okb.symm
+        subst hs
+        rfl
+
+/-- equality of names is equality of the strings they spell -/
+theorem Name.eq_iff (a b : Name) : a = b ↔ a.str = b.str := by
+  constructor
+  · intro h; rw [h]
+  · intro h
+    apply (Name.eq_iff_key a b).mpr
+    rw [a.ok, b.ok] at h
+    exact key_eq_of_map_eq _ _ a.valid b.valid (String.ofList_injective h)
+
+instance : DecidableEq Name := fun a b =>
+  if h : a.key = b.key then isTrue ((Name.eq_iff_key a b).mpr h)
+  else isFalse (fun hab => h ((Name.eq_iff_key a b).mp hab))
+
+instance : Repr Name := ⟨fun n _ => repr n.str⟩
+
+open Lean Elab Term in
+/-- `n! "text"`: the name spelling `text`.  The code points are computed at elaboration time; the two proof
+    fields are `Eq.refl`s that the kernel checks when the enclosing declaration is added (the elaborator
+    itself is not trusted with them). -/
+elab "n!" s:str : term => do
+  let str := s.getString
+  let codes := str.toList.map Char.toNat
+  unless codes.all (· < 55296) do
+    throwErrorAt s "n!: code point outside the supported range in {repr str}"
+  let keyE : Expr := toExpr codes
+  let strE : Expr := mkStrLit str
+  let validE := mkApp2 (mkConst ``Eq.refl [1]) (mkConst ``Bool) (mkConst ``Bool.true)
+  let okE := mkApp2 (mkConst ``Eq.refl [1]) (mkConst ``String) strE
+  return mkApp4 (mkConst ``Iox2.Ffi.Name.mk) strE keyE validE okE
+
+def Name.isEmpty (n : Name) : Prop := n.key = []
+instance (n : Name) : Decidable n.isEmpty := by unfold Name.isEmpty; infer_instance
+
+theorem Name.isEmpty_iff (n : Name) : n.isEmpty ↔ n.str = "" := by
+  unfold Name.isEmpty
+  constructor
+  · intro h; rw [n.ok, h]; rfl
+  · intro h
+    have h2 := n.ok
+    rw [h] at h2
+    have : (n.key.map Char.ofNat) = [] := by
+      apply String.ofList_injective
+      rw [← h2]
+    simpa using this
+
+/-- one variant of a C enum: name, evaluated discriminant, printable name (empty = the enum has none) -/
+structure CVariant where
+  name : Name
+  code : Int
+  printable : Name
+deriving DecidableEq, Repr
+
+/-- `impl IntoCInt for rustEnum` (or `From<rustEnum> for iox2_…_e`): `rustVariants` = every variant of the
+    Rust enum definition (payload enums flattened as far as the match looks into them),
+    `table` = (Rust variant, C variant) rows -/
+structure Mapping where
+  rustEnum : Name
+  rustVariants : List Name
+  table : List (Name × Name)
+deriving DecidableEq, Repr
+
+structure CEnum where
+  name : Name
+  file : String
+  hasStringFn : Bool
+  variants : List CVariant
+  /-- C variants the binding returns by itself (mentioned outside the enum definition, the mappings
+      and the export stubs of quirks_correction.rs) -/
+  direct : List Name
+  mappings : List Mapping
+deriving Repr
+
 end Iox2.Ffi
